@@ -313,7 +313,29 @@ def replay_rewriter(task, failure):
         if r2.get("reproduced"):
             r2["text"] = "(leaves instantiated with the counter-model's constants) " + r2["text"]
             return r2
+        # the counter-model may live in the shape of a callee's result, which the witness (the top-level arguments) does not carry:
+        # try the recorded inputs of defects that were repaired in this rewriter
+        for name, build in REGRESSION_INPUTS.get(task["kwargs"]["rw"], []):
+            try:
+                build()
+            except Exception as e:  # noqa
+                return {"reproduced": True, "text": f"(recorded regression input {name}) raised {type(e).__name__}: {e}"}
     return r
+
+
+def _reg_extract_reverse_concat():
+    """fix ad66bf5: a valid slice of Reverse(Concat(..)) whose reversed parts consolidate into another Reverse(Concat(..)) raised
+    'Extract bound must be less than BV size' (public constructors + claripy.replace)"""
+    import claripy
+    m, n, t2 = claripy.BVS("m", 16), claripy.BVS("n", 16), claripy.BVS("t2", 16)
+    y = claripy.Reverse(claripy.Concat(claripy.Reverse(m & n), t2))
+    q1, q2, p = claripy.BVS("q1", 16), claripy.BVS("q2", 16), claripy.BVS("p", 32)
+    a = claripy.Reverse(claripy.Concat(q1, q2))
+    b = claripy.replace(claripy.replace(a, q1, claripy.Reverse(p[15:0])), q2, claripy.Reverse(p[31:16]))
+    return claripy.replace(b, p, y)[11:4]
+
+
+REGRESSION_INPUTS = {"extract_simplifier": [("Reverse(Concat)-consolidating-to-Reverse(Concat) [11:4]", _reg_extract_reverse_concat)]}
 
 
 def _replay_rewriter(task, failure):
